@@ -30,7 +30,7 @@ static int run_collect_seq[NT]; /* schedule point at which the scheduler thread 
 static int cancel_done_seq[NT]; /* schedule point count when cancel(task i) returned to its caller (0 = never cancelled) */
 static struct aws_task task[NT];
 static uint64_t task_time[NT]; /* 0 = now */
-static struct aws_thread_scheduler *ts;
+static struct aws_thread_scheduler *ts, *tsB;
 static int after_release;
 static int invoked_after_release;
 /* harness-side hand-off used by S6 */
@@ -59,6 +59,11 @@ static void task_fn(struct aws_task *t, void *arg, enum aws_task_status status) 
     if (i == 2 && status == AWS_TASK_STATUS_CANCELED && reentrant_mode == 3 && !reentrant_done && !release_called) {
         reentrant_done = 1;
         aws_thread_scheduler_schedule_now(ts, &task[1]);
+    }
+    /* mode 5: task 0, when the shutdown of scheduler A cancels it, drops the last reference to a second scheduler B */
+    if (i == 0 && status == AWS_TASK_STATUS_CANCELED && reentrant_mode == 5 && !reentrant_done) {
+        reentrant_done = 1;
+        aws_thread_scheduler_release(tsB);
     }
     /* mode 4: task 2, whenever its cancellation is delivered (by the scheduler thread or by the shutdown - the callback cannot
      * tell), cancels its companion timer, task 1 */
@@ -449,6 +454,33 @@ static void s17(void) {
     VS_CHECK(reentrant_done, "task-lost", "task 2 was cancelled but its CANCELED call never happened");
 }
 
+/* S18: two schedulers.  A holds two far-future tasks, B one; the owner releases A, and the CANCELED call of A's first task drops
+ * the last reference to B - B's shutdown therefore runs inside A's.  Every task of both schedulers is invoked exactly once with
+ * CANCELED, both threads are gone, nothing leaks: the shutdown passes of two schedulers are independent (added after a seeded
+ * change that made the inner scheduler's batch list a function-level static) */
+static void s18(void) {
+    setup();
+    reentrant_mode = 5;
+    tsB = aws_thread_scheduler_new(A, NULL);
+    if (!tsB) vs_harness_error("second aws_thread_scheduler_new failed");
+    uint64_t now = 0;
+    aws_high_res_clock_get_ticks(&now);
+    task_time[0] = now + 3600ull * 1000000000ull;
+    task_time[1] = now + 7200ull * 1000000000ull;
+    task_time[2] = now + 5400ull * 1000000000ull;
+    aws_thread_scheduler_schedule_future(ts, &task[0], task_time[0]);
+    aws_thread_scheduler_schedule_future(ts, &task[1], task_time[1]);
+    aws_thread_scheduler_schedule_future(tsB, &task[2], task_time[2]);
+    pthread_mutex_lock(&hm); /* either scheduler thread may or may not take its tasks over first */
+    pthread_mutex_unlock(&hm);
+    int h[NT] = {1, 1, 1}, c[NT] = {0, 0, 0};
+    finish(h, c);
+    VS_CHECK(reentrant_done, "task-lost", "task 0 was never cancelled, the second scheduler never released");
+    for (int i = 0; i < NT; ++i)
+        VS_CHECK(tl[i].n == 1 && tl[i].status[0] == AWS_TASK_STATUS_CANCELED, "task-lost", "two schedulers shut down one inside the other: task %d invoked %d time(s)%s", i, tl[i].n,
+                 tl[i].n ? (tl[i].status[0] == AWS_TASK_STATUS_CANCELED ? "" : ", first with RUN") : "");
+}
+
 /* S15: the second life of a task object.  T is scheduled for a far-future time and cancelled; after its CANCELED call the same
  * object (not re-initialised, as the header allows for a task that has completed) is handed over again with schedule_now.
  * Nothing in this scenario needs time to pass, so the run must happen with the virtual clock still before the far time of
@@ -515,6 +547,7 @@ int main(int argc, char **argv) {
         {.name = "S14-only-task-parked-at-uint64-max", .run = s14, .bound_quick = 3, .bound_thorough = 4, .digest = user_digest},
         {.name = "S16-cancel-the-nearer-of-two-timed-tasks", .run = s16, .bound_quick = 2, .bound_thorough = 3, .digest = user_digest, .no_timeouts = 1},
         {.name = "S17-cancelled-task-cancels-its-companion-also-at-shutdown", .run = s17, .bound_quick = 2, .bound_thorough = 3, .digest = user_digest, .no_timeouts = 1},
+        {.name = "S18-shutdown-of-a-second-scheduler-inside-the-first", .run = s18, .bound_quick = 1, .bound_thorough = 2, .digest = user_digest, .no_timeouts = 1},
         {.name = "S15-task-object-reused-after-cancel", .run = s15, .bound_quick = 2, .bound_thorough = 3, .digest = user_digest, .no_timeouts = 1}, /* time passes only when nobody can run */
         {.name = "S7-three-clients", .run = s7, .bound_quick = -1, .bound_thorough = 1, .digest = user_digest},
     };
